@@ -92,16 +92,23 @@ func (t WebsocketTransport) startReader() {
 			if err != nil {
 				return
 			}
-			n, err := reader.Read(buffer)
-			if err != nil && err != io.EOF {
-				return
-			}
-			if n > 0 {
-				// We need to make a copy, otherwise we will overwrite the slice content
-				// on the next iteration of the for loop.
-				tmp := make([]byte, n)
-				copy(tmp, buffer)
-				t.queue <- tmp
+			// A message can span several frames: read it to the end before asking for
+			// the next one (the library refuses to hand out a new reader otherwise).
+			for {
+				n, err := reader.Read(buffer)
+				if n > 0 {
+					// We need to make a copy, otherwise we will overwrite the slice content
+					// on the next iteration of the for loop.
+					tmp := make([]byte, n)
+					copy(tmp, buffer)
+					t.queue <- tmp
+				}
+				if err == io.EOF {
+					break
+				}
+				if err != nil {
+					return
+				}
 			}
 		}
 	}()
